@@ -1969,7 +1969,10 @@ fn session(ctx: &Ctx, kernel: &K) -> WorldResult {
     }
     history.on_out(&out);
     let expected = std::mem::take(&mut app.expected);
-    let drained = healthy && responsive && stall_free && !k.trouble_in_dispose && k.quits_in_dispose <= 3 && !app.blocked && out.ends_with(&epilogue);
+    // under the conditions in which the release has to deliver everything (the same as for the
+    // closing-sequence clause of C17) the frame in flight and the epilogue must have come out
+    // completely: a torn frame at release is a torn frame
+    let drained = healthy && responsive && stall_free && !k.trouble_in_dispose && k.quits_in_dispose <= 3 && !app.blocked && !k.eio && !k.hup;
     drop(k);
     history.finish(drained, &|pos| expected[pos as usize])
 }
